@@ -188,7 +188,7 @@ func init() {
 			return
 		}
 		for i := 0; i < n; i++ {
-			in := rhInput{Const: rng.Intn(3) == 0}
+			in := rhInput{Const: rng.Intn(3) == 0 && constOK}
 			if i == 1 {
 				// one very long recording (more frames than a 16-bit counter holds, far more than a minute of them),
 				// the next one started straight after it was stopped: both must decode to exactly their frames
